@@ -266,7 +266,7 @@ func parent(out *Out, tier string, replay []string) {
 	if replay != nil {
 		jobs = []job{{"replay", len(replay)}}
 	} else {
-		per := map[string]int{"s": len(scenarios), "v": 3000, "m": 4500}
+		per := map[string]int{"s": len(scenarios), "v": 1500, "m": 2200}
 		if tier == "thorough" {
 			per = map[string]int{"s": len(scenarios), "v": 30000, "m": 45000}
 		}
